@@ -8,16 +8,20 @@
 package main
 
 import (
+	"bytes"
 	"context"
 	"encoding/json"
 	"errors"
 	"fmt"
+	"net/http/httptest"
 	"reflect"
 	"sort"
 	"strconv"
 	"strings"
+	"sync"
 
 	"github.com/go-playground/validator/v10"
+	"rivaas.dev/app"
 	"rivaas.dev/validation"
 	"verif/harness/hx"
 )
@@ -190,6 +194,7 @@ type caseT struct {
 	Redact    []string // exact paths the redactor covers
 	RedactSub string   `json:",omitempty"` // additionally: every path containing this substring
 	Pkg       bool     // use the package-level functions (default validator) instead of a Validator value
+	ViaApp    bool     `json:",omitempty"` // partial mode through app.Context.Bind(WithPartial) on a PATCH request
 	Auto      bool     // StrategyAuto instead of StrategyTags
 }
 
@@ -495,6 +500,7 @@ func genCase(r *hx.Rand, tier string) caseT {
 		c.MaxFields = r.Range(1, 4)
 	}
 	c.Pkg = r.Chance(1, 4)
+	c.ViaApp = c.Mode == 0 && r.Chance(1, 4)
 	c.Auto = r.Chance(1, 2)
 	// redactor: a random subset of the paths that occur, sometimes a substring rule
 	if r.Chance(2, 3) {
@@ -825,6 +831,25 @@ func (o *obsT) key() string {
 
 var sharedValidator = validation.MustNew()
 
+// the application the ViaApp cases go through: PATCH /c05 runs whatever appHandler is set to
+var (
+	appOnce    sync.Once
+	theApp     *app.App
+	appHandler func(c *app.Context)
+)
+
+func getApp() *app.App {
+	appOnce.Do(func() {
+		theApp = app.MustNew(app.WithServiceName("verif-c05"), app.WithoutDefaultMiddleware())
+		theApp.PATCH("/c05", func(c *app.Context) {
+			if h := appHandler; h != nil {
+				h(c)
+			}
+		})
+	})
+	return theApp
+}
+
 func redactor(c *caseT) validation.Redactor {
 	if len(c.Redact) == 0 && c.RedactSub == "" {
 		return nil
@@ -847,7 +872,9 @@ func observe(c *caseT, rt reflect.Type, secrets []string) (o obsT) {
 	o.pm = sortedKeys(pm)
 	o.leaves = pm.LeafPaths()
 	ptr := reflect.New(rt)
-	_ = json.Unmarshal(body, ptr.Interface())
+	if !c.ViaApp {
+		_ = json.Unmarshal(body, ptr.Interface())
+	}
 	var opts []validation.Option
 	switch {
 	case c.Mode == 2:
@@ -875,6 +902,31 @@ func observe(c *caseT, rt reflect.Type, secrets []string) (o obsT) {
 		}()
 		ctx := context.Background()
 		switch {
+		case c.Mode == 0 && c.ViaApp:
+			// the whole path of a PATCH handler: bind the body, presence from the raw body, partial validation
+			req := httptest.NewRequest("PATCH", "/c05", bytes.NewReader(body))
+			req.Header.Set("Content-Type", "application/json")
+			ran := false
+			appHandler = func(ac *app.Context) {
+				ran = true
+				defer func() {
+					if p := recover(); p != nil {
+						o.kind = "P"
+					}
+				}()
+				verr = ac.Bind(ptr.Interface(), app.WithPartial(), app.WithValidationOptions(opts...))
+				if apm := ac.Presence(); apm != nil {
+					o.pm = sortedKeys(apm)
+					o.leaves = apm.LeafPaths()
+				} else {
+					o.pm, o.leaves = nil, nil
+				}
+			}
+			getApp().Router().ServeHTTP(httptest.NewRecorder(), req)
+			appHandler = nil
+			if !ran {
+				o.other = "app: handler did not run"
+			}
 		case c.Mode == 0 && c.Pkg:
 			verr = validation.ValidatePartial(ctx, ptr.Interface(), pm, opts...)
 		case c.Mode == 0:
@@ -1012,7 +1064,9 @@ func emit(id string, c caseT, st *hx.Stats) string {
 	}
 	// the struct value as the handler would have it
 	ptr := reflect.New(rt)
-	_ = json.Unmarshal([]byte(c.Body), ptr.Interface())
+	if uerr := json.Unmarshal([]byte(c.Body), ptr.Interface()); uerr != nil && c.ViaApp {
+		c.ViaApp = false // binding refuses the body before validation: this case goes to the validator directly
+	}
 	root := ptr.Elem()
 
 	// candidate paths: brute-force enumeration of the decoded body (dotted)
@@ -1162,6 +1216,9 @@ func emit(id string, c caseT, st *hx.Stats) string {
 		st.Case(in[len(id):], low || violations >= 2)
 		st.Count("mode_" + []string{"partial", "full", "runall", "interface"}[c.Mode])
 		st.Count("obs_" + o.kind)
+		if c.ViaApp {
+			st.Count("via_app_context_bind")
+		}
 		if low {
 			st.Count("low_sibling_next_to_nested")
 		}
